@@ -186,6 +186,9 @@ def core_engine(tier, d):
                     for i, line in enumerate(fh):
                         if i in (5, 400, 2500) and len(samples) < 6:
                             samples.append(json.loads(line).get("ops"))
+            # the result must be self-contained: attach the offending behaviours now
+            for v in res["viol"][:40]:
+                v["behaviour"] = behaviour_at(f, v["beh"])
             # traces are large; keep only those that contain a violation
             keep = {v["trace"] for v in res["viol"]}
             for i in range(shards):
@@ -215,10 +218,13 @@ def merged_replays(res):
 
 
 def behaviour_at(path, idx):
-    with open(path) as f:
-        for i, line in enumerate(f):
-            if i == idx:
-                return json.loads(line)
+    try:
+        with open(path) as f:
+            for i, line in enumerate(f):
+                if i == idx:
+                    return json.loads(line)
+    except OSError:
+        pass
     return None
 
 
@@ -237,8 +243,8 @@ def report_violations(prop, viols, res, findings):
         new += 1
         if new > 5:
             continue
-        beh = None
-        if v.get("source") in res.get("beh_files", {}):
+        beh = v.get("behaviour")
+        if beh is None and v.get("source") in res.get("beh_files", {}):
             beh = behaviour_at(res["beh_files"][v["source"]], v["beh"])
         path = os.path.join(WORK, "replays", f"{prop}_{v.get('source', 'x').replace(':', '-')}_{v['beh']}_{v['rule']}.json")
         json.dump({"property": prop, "rule": f"{v['prop']}.{v['rule']}", "object": v["obj"], "trace_line": v["line"],
@@ -567,6 +573,9 @@ def dispatch(argv):
     if cmd in ("C17", "C18", "C19"):
         import engines_sat
         return engines_sat.check_sat(cmd, tier)
+    if cmd == "C12":
+        import engines_sat
+        return engines_sat.check_brand(tier)
     if cmd == "C13":
         import engines_sat
         return engines_sat.check_writecap(tier)
